@@ -44,7 +44,7 @@ CHECKS.update({
         technique=T_SYM + " (QF_NRA) per static structure; structures bounded-exhaustive"),
     "C05": dict(cat="proof", ref="DESIGN.md §4 C05",
         text="Proof of the SIDE CONDITIONS under which jax.grad is the derivative, not of gradient agreement itself: strict definedness of every kernel on the differentiable path (both branches of every where), "
-             "routing of trainables through the real get_all_parameters/get_all_states (indices in range, groups disjoint, every unique_indices/indices_are_sorted promise true), and an AST scan for derivative-cutting constructs. "
+             "routing of trainables through the real get_all_parameters/get_all_states (indices in range, groups disjoint, every unique_indices/indices_are_sorted promise true), no select taken on a null set (a where whose condition is an equality between traced reals) with a derivative different from the surrounding branch (symbolic differentiation of the terms of the real kernels and of the real Module.step), and an AST scan for derivative-cutting constructs. "
              "JAX's AD is assumed correct; finite-difference agreement is not checked.",
         technique=T_SYM + "; AST transparency scan", note="Claims the side conditions only; JAX AD/scan/checkpoint/vmap assumed correct. " + BASE_NOTE),
     "C06": dict(cat="proof", ref="DESIGN.md §4 C06",
@@ -71,7 +71,7 @@ CHECKS.update({
              "the solver side on networks of different-depth cells by the C01 chain.",
         technique=T_SYM + " (AC-normalised term equality, z3 fallback); C01 chain on networks; bounded table contracts"),
     "C15": dict(cat="proof", ref="DESIGN.md §4 C15",
-        text="One-step consistency with exact constants for all real parameter values: uniform-cable coupling = centred second difference of (d/4Ra) d2V/dx2 / c_m with um, ohm cm, uF/cm2 converted exactly; sealed ends; single-compartment bwd_euler / crank_nicolson / fwd_euler updates of the real Module.step against tau = cm/(1000 g), R I = 100 I/(2 pi r l g); fixed point E + I/(gA). "
+        text="One-step consistency with exact constants for all real parameter values: uniform-cable coupling = centred second difference of (d/4Ra) d2V/dx2 / c_m with um, ohm cm, uF/cm2 converted exactly; sealed ends; single-compartment bwd_euler / crank_nicolson / fwd_euler updates of the real Module.step against tau = cm/(1000 g), R I = 100 I/(2 pi r l g); fixed point E + I/(gA); a cable split over two branches is proved to be the same cable (branch-point elimination lemma) and every back end returns the solution of the physical system also for a cable inside a network of cells with different depth (C01 chain on those structures). "
              "Convergence orders follow by cited theorems; the limit itself is not mechanised.",
         technique=T_SYM + " (QF_NRA identities with unit factors)"),
 })
